@@ -125,6 +125,11 @@ static void do_idx(unsigned op, unsigned m, size_t failk)
 {
 	lzma_index *A = mk_index(m, 0, op != 3 && op != 6), *B = mk_index(3 + m % 600, 5, 1), *D = NULL;   // a decoded Index carries no Stream Flags
 	if (!A || !B) { printf("SETUPERR\n"); return; }
+	unsigned extra = 0;
+	if (op <= 2 && (m % 3) != 0) {
+		// several Streams in A (concatenated indexes): the Stream and Record-group trees have more than one node
+		for (unsigned q = 0; q < 1 + m % 3; q++) { lzma_index *X = mk_index(2 + q + (m % 5 == 0 ? 600 : 0), 9 + q, q & 1); if (!X || lzma_index_cat(A, X, &al) != LZMA_OK) { printf("SETUPERR\n"); return; } extra += 2 + q + (m % 5 == 0 ? 600 : 0); }
+	}
 	uint32_t dA = idx_digest(A), dB = idx_digest(B);
 	static uint8_t enc[1 << 20]; size_t ep = 0;
 	lzma_index_buffer_encode(A, enc, &ep, sizeof enc);
@@ -148,8 +153,8 @@ static void do_idx(unsigned op, unsigned m, size_t failk)
 	else {
 		// success: the result must be the one the operation defines
 		if ((op == 2 || op == 3 || op == 6) && (!D || idx_digest(D) != dA)) unchanged = 0;
-		if (op == 0 && lzma_index_block_count(A) != m + 1) unchanged = 0;
-		if (op == 1 && lzma_index_block_count(A) != m + 3 + m % 600) unchanged = 0;
+		if (op == 0 && lzma_index_block_count(A) != m + extra + 1) unchanged = 0;
+		if (op == 1 && lzma_index_block_count(A) != m + extra + 3 + m % 600) unchanged = 0;
 	}
 	// the objects must still be usable
 	if (lzma_index_append(A, &al, 108, 5) != LZMA_OK) unchanged = 0;
